@@ -309,6 +309,10 @@ pub fn gen_range_new(o: &mut Out, tier: &str, sd: u64, honest: bool) {
 pub fn gen_c06_range(o: &mut Out, tier: &str, sd: u64) {
     let mut r = Rng::new(sd, "c06r");
     let th = tier == "thorough";
+    // proofs of different widths built and verified one after the other in one process
+    for ws in if th { vec!["64,256,128,64,256,64", "256,64,128", "128,128,256,64"] } else { vec!["64,256,128,64"] } {
+        o.op("range.width-sequence", &format!("rseq {} {}", ws, hex(&r.bytes(8))));
+    }
     for w in [64usize, 128, 256] {
         let all = splits(&mut r, w, th);
         for bls in all.into_iter().take(if th { 20 } else { 2 }) {
